@@ -32,6 +32,11 @@ type cfg struct {
 	Kind string `json:"kind"` // smooth | bursty
 	Unit int64  `json:"unit"` // interval (smooth) or period (bursty), ns
 	Max  int    `json:"max"`  // bursty: permits per period
+	// Form: how the limiter is constructed. 0: SmoothBuilderWithMaxRate / BurstyBuilder; 1: smooth through
+	// SmoothBuilder(n, n*interval), documented as "rate = period / maxExecutions"; 2: the constructors without a builder
+	// (SmoothWithMaxRate, Bursty; Smooth(n, n*interval)) where no further setting is needed
+	Form int `json:"form,omitempty"`
+	N    int `json:"n,omitempty"` // maxExecutions for the (n, period) forms
 }
 
 func (c cfg) String() string {
@@ -60,15 +65,29 @@ type limiter struct {
 func newLimiter(c cfg, b func(ratelimiter.RateLimiterBuilder[int])) *limiter {
 	l := &limiter{c: c}
 	var bld ratelimiter.RateLimiterBuilder[int]
-	if c.Kind == "smooth" {
+	n := max(c.N, 1)
+	switch {
+	case c.Kind == "smooth" && c.Form >= 1:
+		bld = ratelimiter.SmoothBuilder[int](uint(n), time.Duration(c.Unit)*time.Duration(n))
+	case c.Kind == "smooth":
 		bld = ratelimiter.SmoothBuilderWithMaxRate[int](time.Duration(c.Unit))
-	} else {
+	default:
 		bld = ratelimiter.BurstyBuilder[int](uint(c.Max), time.Duration(c.Unit))
 	}
 	if b != nil {
 		b(bld)
 	}
 	l.rl = bld.Build()
+	if b == nil && c.Form == 2 {
+		switch {
+		case c.Kind == "smooth" && c.N > 0:
+			l.rl = ratelimiter.Smooth[int](uint(n), time.Duration(c.Unit)*time.Duration(n))
+		case c.Kind == "smooth":
+			l.rl = ratelimiter.SmoothWithMaxRate[int](time.Duration(c.Unit))
+		default:
+			l.rl = ratelimiter.Bursty[int](uint(c.Max), time.Duration(c.Unit))
+		}
+	}
 	ratelimiter.VerifSetStopwatch[int](l.rl, func() time.Duration { return time.Duration(l.now) })
 	return l
 }
@@ -212,6 +231,13 @@ func genCfg(t *rapid.T, kind string) cfg {
 		} else {
 			c.Max = rapid.IntRange(1, 20).Draw(t, "max")
 		}
+	}
+	c.Form = rapid.IntRange(0, 2).Draw(t, "form")
+	if kind == "smooth" && c.Form >= 1 && c.Unit < int64(time.Hour) {
+		c.N = rapid.IntRange(0, 1000).Draw(t, "n") // period = n * interval stays far below the int64 range
+	}
+	if c.Form == 1 && c.N == 0 {
+		c.Form = 0
 	}
 	return c
 }
